@@ -490,6 +490,13 @@ def _vm_effects(repo):
     # the condition of the capture of a recursion: `if $capture { out.begin_capture(..) }`
     if not re.search(r"if \$capture\s*\{\s*out\.begin_capture\(CaptureMode::Capture\);\s*\}", mac):
         raise KeyError("recurse_loop!: the capture is not begun under `if $capture`")
+    # the conditions the one `end_capture` of the end-of-stream logic is under (the model
+    # `MJ.Extends.endOfStream` pops whatever is on top whenever a parent was loaded)
+    pos = [m0.start() for m0 in re.finditer(r"\.end_capture\(", eos)]
+    if len(pos) != 1:
+        raise KeyError("end-of-stream: expected exactly one end_capture")
+    stmt, guards = _stmt_and_guards(eos, pos[0])
     lean = ("def c05VmEffects : List (String × List Nat × List String × Nat) := [\n  "
-            + ",\n  ".join(f"({lean_str(n)}, [{', '.join(map(str, c))}], {_lean_list(r)}, {x})" for n, c, r, x in rows) + "]")
-    return rows, lean
+            + ",\n  ".join(f"({lean_str(n)}, [{', '.join(map(str, c))}], {_lean_list(r)}, {x})" for n, c, r, x in rows) + "]\n"
+            + "def c05EndOfStreamPop : String × List String := (" + lean_str(stmt) + ", " + _lean_list(guards) + ")")
+    return {"rows": rows, "end_of_stream_pop": [stmt, guards]}, lean
